@@ -856,7 +856,21 @@ def _interp_methods(cls):
         return fm.fields["buf"]
 
     def default_hint(self, e):
-        # unwrap_or_default: the kernels only use it on &str / String / Option<String>
+        """T::default() for `opt.unwrap_or_default()`: guessed from the closure that produced the option's payload"""
+        r = e.get("recv", {})
+        if r.get("k") == "mcall" and r.get("method") in ("map", "and_then") and r["args"] and r["args"][0].get("k") == "closure":
+            b = r["args"][0]["body"]
+            while b.get("k") == "block" and b["stmts"] and b["stmts"][-1]["k"] == "expr":
+                b = b["stmts"][-1]["e"]
+            if b.get("k") == "binary":
+                if b["op"] in ("==", "!=", "<", "<=", ">", ">=", "&&", "||"):
+                    return False
+                if b["op"] in ("+", "-", "*", "/"):
+                    return 0
+            if b.get("k") == "unary" and b["op"] == "!":
+                return False
+        if r.get("k") == "mcall" and r.get("method") == "position":
+            return 0
         return SStr()
 
     def type_hint(self, e, env):
